@@ -234,6 +234,8 @@ func c18Jobs(thorough bool) []json.RawMessage {
 		{Name: "busy-fast-handler", Clients: []c18.Client{cl(c18.Busy, 0, 0)}, ExitWait: long, Hooks: []time.Duration{0}},
 		{Name: "busy-500ms-handler", Clients: []c18.Client{cl(c18.Busy, 500*ms, 0)}, ExitWait: long, Hooks: []time.Duration{0}},
 		{Name: "busy-handler-outlasts-exitwait", Clients: []c18.Client{cl(c18.Busy, 2*sec, 0)}, ExitWait: short, Hooks: nil, ShutdownDelay: 100 * ms},
+		{Name: "busy-handler-35s-exitwait-40s", Clients: []c18.Client{cl(c18.Busy, 35*sec, 0)}, ExitWait: 40 * sec, Hooks: nil, ShutdownDelay: 100 * ms, Poll: 2300 * ms},
+		{Name: "idle-keepalive-second-request-streamed", Clients: []c18.Client{cl(c18.Idle, 0, 300*ms)}, ExitWait: long, ShutdownDelay: 100 * ms, Stream: true},
 		{Name: "idle-keepalive-second-request", Clients: []c18.Client{cl(c18.Idle, 0, 300*ms)}, ExitWait: long, ShutdownDelay: 100 * ms},
 		{Name: "idle-keepalive-until-close", Clients: []c18.Client{cl(c18.IdleEnd, 0, 3*sec)}, ExitWait: short, ShutdownDelay: 100 * ms},
 		{Name: "mid-request", Clients: []c18.Client{cl(c18.MidReq, 0, 300*ms)}, ExitWait: long, ShutdownDelay: 100 * ms},
